@@ -225,14 +225,34 @@ def check_ref(run, S, name, spec, kw):
 
 
 def check_range_index(run, S, name, spec, kw):
+    """`&a[1..2]`, `&a[..1]`, `&a[1..]`, `&a[..]`: the result is the sub-slice of the argument's own n components (a window
+    into a0 at the right offset and length), or the checked core range index applied to the full n-element view of a0;
+    an out-of-range range panics."""
     n, mut = spec[1], spec[2]
+    kind = re.search(r'index_(?:mut_)?(range_to|range_from|range_full|range)', name).group(1)
+    lo, hi = {'range': (1, 2), 'range_to': (0, 1), 'range_from': (1, n), 'range_full': (0, n)}[kind]
+    r = run.use_root(S, name)
+    if r is None:
+        run.ob('%s:%s:present' % (PROP, name), False, rule='root-present', expected='root', found='missing')
+        return
+    where = r.get('span')
+    key = '%s:%s' % (PROP, name)
+    ls = ret_leaves(r['out'])
+    if hi > n or lo > hi:
+        run.ob(key + ':out-of-range', len(ls) == 1 and ls[0][1]['k'] == 'panic' or all(l['k'] in ('panic', 'ret') for g_, l in ls) and any(e['fn'].endswith('index') or e['fn'].endswith('index_mut') for g_, l in ls if l['k'] == 'ret' for e in l['trace']),
+               rule='K1 view provenance', expected='range %d..%d of %d components: panics (or is left to the checked core index)' % (lo, hi, n), found=[l['k'] for g_, l in ls], where=where)
+        return
     sr = single_ret(run, S, name, allow_panics=True)
     if sr is None:
         return
     r, leaf = sr
-    where = r.get('span')
-    key = '%s:%s' % (PROP, name)
     calls = [e for e in leaf['trace']]
+    v = leaf['v']
+    if not calls:
+        # resolved concretely: a window into the argument
+        okw = 'r' in v and v['r']['name'] == 'a0' and v['r']['off'] == lo and v['r']['n'] == hi - lo
+        run.ob(key + ':window', okw, rule='K1 view provenance', expected='components %d..%d of the argument itself' % (lo, hi), found=S.showval(v)[:160], where=where)
+        return
     want = 'core::ops::index::IndexMut::index_mut' if mut else 'core::ops::index::Index::index'
     ok = len(calls) == 1 and calls[0]['fn'] in (want, 'core::ops::index::Index::index', 'core::ops::index::IndexMut::index_mut')
     if not run.ob(key + ':callee', ok, rule='who-is-called', expected='exactly one call: the checked core slice/array range index', found=[e['fn'] for e in calls], where=where):
@@ -241,8 +261,6 @@ def check_range_index(run, S, name, spec, kw):
     a0 = e['args'][0]
     okr = 'r' in a0 and a0['r']['name'] == 'a0' and a0['r']['off'] == 0 and a0['r']['n'] == n
     run.ob(key + ':receiver', okr, rule='who-is-called', expected='indexing the %d-element array view of the argument itself' % n, found=S.showval(a0)[:160], where=where)
-    # result is the result of that call
-    v = leaf['v']
     okv = 'r' in v and v['r']['name'] is None
     run.ob(key + ':result', okv, rule='who-is-called', expected='returns what the checked index returned', found=S.showval(v)[:100], where=where)
 
